@@ -207,6 +207,16 @@ def handle(case):
                                'reps': [s.nr_of_repetitions for s in u.composite_operations]}
             u2 = u.apply_modifiers()
             out['unrolled_twice'] = {'ops': observe(u2), 'duration': ticks(u2.duration)}
+            # fresh build, unrolled, durations read BEFORE anything is listed (the circuit's, then every sub-circuit's)
+            u3 = Builder(case).build(case['prog']).apply_modifiers()
+            d3 = ticks(u3.duration)
+            sub_d3 = [ticks(sc.duration) for sc in u3.composite_operations]
+            ops3 = observe(u3)
+            comps3 = comps_of(u3)
+            if len(comps3) == len(sub_d3):
+                for x, d in zip(comps3, sub_d3):
+                    x['d'] = d                    # the duration each sub-circuit reported before the first listing
+            out['unrolled_dur_first'] = {'ops': ops3, 'duration': d3, 'comps': comps3}
         if 'flatten' in want:       # C11: flatten of the plain and of the unrolled circuit, twice
             def flat_obs(circ):
                 f1 = circ.flatten()
@@ -225,25 +235,32 @@ def handle(case):
                 except RecursionError:
                     out[key] = {'recursion_error': True, 'before': before}
         if 'copy' in want:          # C05: explicit copy, implicit copy by nesting, independence in both directions
+            def fresh():
+                """the circuit to be copied: the built program, or a circuit derived from it (unrolled and/or flattened) when the case asks"""
+                d = Builder(case).build(case['prog'])
+                for step in case.get('derive', []):
+                    d = d.apply_modifiers() if step == 'mods' else d.flatten()
+                return d
+
             def wrap(structure):
                 d = DeclarativeCircuit()
                 d._structure = structure
                 return d
-            out['orig'] = {'ops': observe(Builder(case).build(case['prog'])), 'duration': 0}
-            c1 = Builder(case).build(case['prog'])
+            out['orig'] = {'ops': observe(fresh()), 'duration': 0}
+            c1 = fresh()
             out['copy'] = {'ops': observe(wrap(c1.circuit_structure.copy())), 'duration': 0}
             outer = DeclarativeCircuit()
-            outer.add(Builder(case).build(case['prog']))
+            outer.add(fresh())
             out['nested'] = {'ops': observe(outer), 'duration': 0}
             # mutate the original, watch the copy
-            c3 = Builder(case).build(case['prog'])
+            c3 = fresh()
             cp3 = wrap(c3.circuit_structure.copy())
             before = observe(cp3)
             c3.add(co.Wait(0, duration_strategy=FixedDurationStrategy(1.0)))
             c3.apply_modifiers()
             out['copy_unchanged'] = before == observe(cp3)
             # mutate the copy, watch the original
-            c4 = Builder(case).build(case['prog'])
+            c4 = fresh()
             cp4 = wrap(c4.circuit_structure.copy())
             before = observe(c4)
             cp4.add(co.Wait(0, duration_strategy=FixedDurationStrategy(1.0)))
